@@ -37,10 +37,14 @@ DIMS = {
     "time": [("s", 1.0), ("min", 60.0), ("ms", 1e-3), ("h", 3600.0), ("us", 1e-6), ("ns", 1e-9)],
     "mass": [("kg", 1e3), ("g", 1.0), ("t", 1e6)],
     "energy": [("J", None), ("erg", None), ("kg*m2/s2", None), ("kJ", None), ("eV", None), ("keV", None)],
+    "speed": [("m/s", None), ("km/h", None), ("cm/s", None), ("m*s-1", None)],
 }
+# a unit of ANOTHER dimension that is written with the same symbols (m/s against m*s)
+LOOKALIKE = {"speed": "m*s", "energy": "kg*m2/s", "length": "m2", "time": "s2"}      # (not the reciprocal: m-1 converts into m by inversion)
 for _d, _lst in DIMS.items():
     DIMS[_d] = [(u, R.factor_of_expression_text(u)) for u, _ in _lst]
-CUSTOM = {"length": ("len", "2", "cm"), "time": ("tick", "5", "ms"), "mass": ("lump", "250", "g"), "energy": ("quant", "3", "kJ")}
+CUSTOM = {"length": ("len", "2", "cm"), "time": ("tick", "5", "ms"), "mass": ("lump", "250", "g"), "energy": ("quant", "3", "kJ"),
+          "speed": ("pace", "4", "km/h")}
 FLOAT_VALUES = ["0", "0.0", "-2.5", "3", "7.25", "1e3", "-1E-2", "100", "0.5", "12345.678", "-0", "6.02e23",
                 "0.30000000000000004", "0.3333333333333333", "2.7182818284590451"]      # need 16-17 significant digits
 INT_VALUES = ["0", "-7", "3", "100", "-200", "5000", "12", "1"]
@@ -138,7 +142,7 @@ def target_case(draw):
         fail = "type"
     return {"kind": kind, "type": tkw, "groups": groups, "name": tname, "dim": dim, "unit": dunit, "declared": declared,
             "first": first, "mods": mods, "custom": use_custom, "fail": fail,
-            "fail_at": fail_at, "const_after_mod": const_after_mod, "indent": draw(st.integers(1, 3)),
+            "fail_at": fail_at, "const_after_mod": const_after_mod, "lookalike": draw(st.booleans()), "indent": draw(st.integers(1, 3)),
             # two-stage parsing: the first `split` modifications are parsed with the definition, the rest on top of
             # the returned environment (DIP(env)); 0 = everything in one parse
             "split": draw(st.sampled_from([0, 0, 0, 1, 2])),
@@ -149,8 +153,26 @@ def target_case(draw):
                               and draw(st.integers(0, 4)) == 0}
 
 
+SAME_SYMBOLS = {"m/s": "m*s", "km/h": "km*h", "cm/s": "cm*s", "m*s-1": "m*s", "J": "J2", "kg*m2/s2": "kg*m2/s"}
+
+
+@st.composite
+def lookalike_case(draw):
+    """a compound unit, then an assignment in a unit of another dimension that is written with the very same symbols
+    (m/s against m*s): refused; the control assigns a proper unit of the dimension"""
+    dim = draw(st.sampled_from(["speed", "speed", "energy"]))
+    dunit = draw(st.sampled_from([u for u, _f in DIMS[dim] if u in SAME_SYMBOLS]))
+    bad = draw(st.booleans())
+    mod = {"val": "3", "unit": draw(st.sampled_from(DIMS[dim]))[0], "typed": draw(st.booleans()), "via_ref": False,
+           "addr": "dotted", "noise": False, "by_expr": None}
+    return {"kind": "float", "type": "float", "groups": [], "name": "x0", "dim": dim, "unit": dunit, "declared": draw(st.booleans()),
+            "first": "1", "mods": [mod], "custom": False, "fail": "dimension" if bad else None, "fail_at": 0,
+            "const_after_mod": False, "lookalike": True, "same_symbols": True, "indent": 2, "split": 0, "prelude": None,
+            "first_by_slice": False}
+
+
 def strategies(tier):
-    return {"target": (target_case(), 3000, 60000)}
+    return {"target": (target_case(), 3000, 60000), "lookalike": (lookalike_case(), 150, 2500)}
 
 
 # --------------------------------------------------------------------------- rendering and model
@@ -218,6 +240,10 @@ def render_stages(case):
             elif case["fail"] == "dimension":
                 other = [dd for dd in sorted(DIMS) if dd != case["dim"]][0]
                 unit = DIMS[other][0][0]
+                if case.get("lookalike") and case["dim"] in LOOKALIKE:
+                    unit = LOOKALIKE[case["dim"]]
+                if case.get("same_symbols"):
+                    unit = SAME_SYMBOLS[case["unit"]]
                 if val == "none":
                     val = "3"
         rhs = f"= {val}" + (f" {unit}" if unit else "")
